@@ -75,7 +75,9 @@ fn flag(args: &[String], name: &str) -> bool {
 }
 
 pub fn config_name() -> &'static str {
-    if cfg!(target_feature = "avx2") {
+    if cfg!(debug_assertions) && !cfg!(miri) {
+        "native-dbg"
+    } else if cfg!(target_feature = "avx2") {
         "native"
     } else {
         "baseline"
